@@ -10,17 +10,19 @@ EXTENDS H2Base, TLC, Json, IOUtils
 
 W == INSTANCE H2Wire
 A == INSTANCE H2Api
+B == INSTANCE H2Bounds
 
 Rec == ndJsonDeserialize(IOEnv.TRACE)
 
 VARIABLES l,      \* position in the trace
           wm,     \* ep -> H2Wire monitor (real endpoints only)
           am,     \* H2Api monitor (pair)
+          bm,     \* ep -> H2Bounds monitor (real endpoints only)
           run,    \* name of the current run
           acc,    \* violations of finished runs
           hits,   \* rule -> number of times its antecedent was exercised
           nruns
-vars == <<l, wm, am, run, acc, hits, nruns>>
+vars == <<l, wm, am, bm, run, acc, hits, nruns>>
 
 Eps == {"c", "s"}
 NoApi == [v |-> <<>>, hits |-> EmptyMap]
@@ -32,27 +34,30 @@ SumHits(hs) ==   \* hs: sequence of hit maps
 
 SeqOfSet(S) == LET F[T \in SUBSET S] == IF T = {} THEN <<>> ELSE LET t == CHOOSE t \in T : TRUE IN <<t>> \o F[T \ {t}] IN F[S]
 
-AllHits(h, w, a) ==
-    SumHits(<<h, a.hits>> \o [j \in 1..Cardinality(DOMAIN w) |-> w[SeqOfSet(DOMAIN w)[j]].hits])
+AllHits(h, w, a, b) ==
+    SumHits(<<h, a.hits>> \o [j \in 1..Cardinality(DOMAIN w) |-> w[SeqOfSet(DOMAIN w)[j]].hits]
+                          \o [j \in 1..Cardinality(DOMAIN b) |-> b[SeqOfSet(DOMAIN b)[j]].hits])
 
-Flush(ac, w, a, r) ==
+Flush(ac, w, a, b, r) ==
     LET eps == SeqOfSet(DOMAIN w)
         F[j \in 0..Len(eps)] ==
             IF j = 0 THEN <<>>
             ELSE F[j - 1] \o [k \in 1..Len(w[eps[j]].v) |-> [run |-> r, ep |-> eps[j], v |-> w[eps[j]].v[k]]]
+                          \o [k \in 1..Len(b[eps[j]].v) |-> [run |-> r, ep |-> eps[j], v |-> b[eps[j]].v[k]]]
     IN ac \o F[Len(eps)] \o [k \in 1..Len(a.v) |-> [run |-> r, ep |-> a.v[k].ep, v |-> a.v[k]]]
 
 TraceInit ==
-    /\ l = 1 /\ wm = [x \in {} |-> 0] /\ am = NoApi /\ run = "" /\ acc = <<>> /\ hits = EmptyMap /\ nruns = 0
+    /\ l = 1 /\ wm = [x \in {} |-> 0] /\ bm = [x \in {} |-> 0] /\ am = NoApi /\ run = "" /\ acc = <<>> /\ hits = EmptyMap /\ nruns = 0
 
 TraceNext ==
     /\ l <= Len(Rec)
     /\ l' = l + 1
     /\ LET e == Rec[l] IN
        IF e.t = "cfg"
-       THEN /\ acc' = Flush(acc, wm, am, run)
-            /\ hits' = AllHits(hits, wm, am)
+       THEN /\ acc' = Flush(acc, wm, am, bm, run)
+            /\ hits' = AllHits(hits, wm, am, bm)
             /\ wm' = [ep \in {x \in Eps : e.real[x]} |-> W!Init(ep, e[ep])]
+            /\ bm' = [ep \in {x \in Eps : e.real[x]} |-> B!Init(ep, e[ep])]
             /\ am' = A!Init(e)
             /\ run' = e.name
             /\ nruns' = nruns + 1
@@ -60,6 +65,9 @@ TraceNext ==
                           IF "ep" \in DOMAIN e /\ e.ep # ep /\ e.ep # "" THEN wm[ep]
                           ELSE W!Step(wm[ep], e, l)]
             IN /\ wm' = w1
+               /\ bm' = [ep \in DOMAIN bm |->
+                          IF "ep" \in DOMAIN e /\ e.ep # ep /\ e.ep # "" THEN bm[ep]
+                          ELSE B!Step(bm[ep], e, l, w1[ep])]
                /\ am' = A!Step(am, e, l, w1)
                /\ UNCHANGED <<run, acc, hits, nruns>>
 
@@ -70,6 +78,6 @@ Done == l = Len(Rec) + 1
 ReportInv ==
     Done => JsonSerialize(IOEnv.OUT,
               [consumed |-> l - 1, total |-> Len(Rec), runs |-> nruns,
-               viols |-> Flush(acc, wm, am, run), hits |-> AllHits(hits, wm, am)])
+               viols |-> Flush(acc, wm, am, bm, run), hits |-> AllHits(hits, wm, am, bm)])
 Accepted == TLCGet("stats").diameter - 1 = Len(Rec)
 =============================================================================
